@@ -272,24 +272,24 @@ func writeEvidence(verif string, c *q.Ctx, total, dis, nviol int, wall float64, 
 		"violations":  nviol,
 		"assumptions": info.Assumptions,
 		"coverage": map[string]any{
-			"explanation":         info.Explanation,
-			"not_decided":         info.NotDecided,
-			"obligations":         total,
-			"discharged":          dis,
-			"evaluations":         total,
-			"distinct_nontrivial": len(distinct),
-			"rule":                "one obligation per rule instance (rule kind | enclosing function | construct); non-trivial = matched at least one real instruction of /repo's current source; distinct = distinct obligation keys",
-			"obligations_by_rule": byRule,
-			"known_findings":      known,
-			"samples":             samples,
-			"functions_analysed":  c.SortedFns(),
-			"call_sites":          c.Sites,
-			"packages":            len(c.P.Pkgs),
+			"explanation":          info.Explanation,
+			"not_decided":          info.NotDecided,
+			"obligations":          total,
+			"discharged":           dis,
+			"evaluations":          total,
+			"distinct_nontrivial":  len(distinct),
+			"rule":                 "one obligation per rule instance (rule kind | enclosing function | construct); non-trivial = matched at least one real instruction of /repo's current source; distinct = distinct obligation keys",
+			"obligations_by_rule":  byRule,
+			"known_findings":       known,
+			"samples":              samples,
+			"functions_analysed":   c.SortedFns(),
+			"call_sites":           c.Sites,
+			"packages":             len(c.P.Pkgs),
 			"functions_in_program": len(c.P.AllFns),
-			"exhaustive":          true,
-			"checker_cmd":         "bin/xvc -property " + c.Prop + " -tier " + tier,
-			"trusted_base":        []string{"go/types type checker", "golang.org/x/tools v0.29.0 go/packages + go/ssa construction and dominators", "the frozen rule tables in xvc/rules (each line confirmed by reading the anchor)", "library axioms listed in assumptions"},
-			"notes":               c.Notes,
+			"exhaustive":           true,
+			"checker_cmd":          "bin/xvc -property " + c.Prop + " -tier " + tier,
+			"trusted_base":         []string{"go/types type checker", "golang.org/x/tools v0.29.0 go/packages + go/ssa construction and dominators", "the frozen rule tables in xvc/rules (each line confirmed by reading the anchor)", "library axioms listed in assumptions"},
+			"notes":                c.Notes,
 		},
 	}
 	data, _ := json.MarshalIndent(ev, "", " ")
